@@ -84,6 +84,7 @@ def run(prog, tier, extra=None):
     R9 = res.rule("C01.stake-input-lookup", "Blockchain::is_slip_unlocked (the only ledger test of a staking transaction's inputs inside Transaction::validate) answers true only after finding the key in the UTXO set", floor=1)
     R7 = res.rule("C01.utxo-lookup", "validate_against_utxoset skips the per-input ledger lookup only for the Fee transaction", floor=1)
     R6 = res.rule("C01.tx-dup", "Transaction::validate accepts a non-privileged transaction only after a test that can tell a repeated input key", floor=1)
+    R10 = res.rule("C01.input-owner", "Transaction::validate accepts a user transaction only after testing that every value-carrying input carries the key the signature was verified against", floor=1)
     R3 = res.rule("C01.signature", "Transaction::validate accept paths pass verify_signature(hash_for_signature, signature, from[0].public_key)", floor=1)
 
     units = prog.units
@@ -336,7 +337,10 @@ def run(prog, tier, extra=None):
                 and has_field(a2, "Slip", "public_key") and has_field(a2, "Transaction", "from"))
     sig = gate.bool_switch_edges(tv, ch, is_sig_check)
     res.instance(R3, len(sig["sites"]))
-    PRIVILEGED = {"Fee", "SPV", "BlockStake", "ATR", "Issuance"}
+    # BlockStake is created and signed by its sender like any other user transaction (the property's catalogue names "privileged
+    # transaction type used to bypass checks" and "staking on/off"): it is NOT exempt. Fee/ATR/Issuance are derived by the block
+    # and compared as a whole (C02 / C13); SPV stubs are refused outright (C06.leaf-from-content).
+    PRIVILEGED = {"Fee", "SPV", "ATR", "Issuance"}
     exempt, priv_sites = gate.enum_compare_edges(prog, tv, ch, "transaction::TransactionType", "transaction_type", PRIVILEGED)
     ex = Explorer(tv)
     found = ex.explore(0, deleted_edges=sig["true"] | exempt, accept=gate.make_accept(tv, return_true=True))
@@ -350,6 +354,75 @@ def run(prog, tier, extra=None):
         res.sample({"rule": "C01.signature", "verify_switches": [tv.loc(b) for b in sig["sites"]],
                     "privileged_type_exits": sorted(set("%s@%s" % (v, tv.loc(b)) for b, v in priv_sites)),
                     "states": ex.states, "verdict": "every other accept path passes the true edge"})
+
+    # R10: the signature speaks for from[0].public_key only. "Belongs to the key whose signature authorises the transaction" therefore
+    # needs a test over *all* inputs that compares their public_key with that key; an input of amount 0 (placeholder, never looked up)
+    # is the only exemption. The test is an adaptor over self.from (find/any/all/position) whose closure compares Slip.public_key,
+    # or a loop over self.from doing so; every accepting path of a non-exempt type passes it and its "foreign input" outcome rejects.
+    from .c14 import closure_args as _cl10
+    owner_sites, foreign_edges = set(), set()
+    for bb, t in tv.calls():
+        n10 = (call_name(t) or "").rsplit("::", 1)[-1]
+        if n10 not in ("find", "any", "all", "position", "find_map") or not t["args"] or not has_field(ch.origin(t["args"][0]), "Transaction", "from"):
+            continue
+        # all inputs: nothing between the vector and the test may drop elements (`.iter().skip(1)` is fine only for the signer's own slot)
+        if any(y[0] in ("call", "via") and y[1].rsplit("::", 1)[-1] in ("filter", "filter_map", "take", "take_while", "skip_while", "step_by", "nth", "last") for y in walk(ch.origin(t["args"][0]))):
+            continue
+        for cb in _cl10(tv, bb, prog):
+            cch = Chaser(cb)
+            # the comparison may be the closure's result itself (`amount > 0 && key != sender`), not a branch condition
+            keycmp = any((call_name(ct) or "") in ("std::cmp::PartialEq::eq", "std::cmp::PartialEq::ne") and any(has_field(cch.origin(a_), "Slip", "public_key") for a_ in ct["args"])
+                         for _, ct in cb.calls())
+            keycmp = keycmp or any(st[0] == "=" and st[2][0] == "bin" and st[2][1] in ("Eq", "Ne") and has_field(cch.rvalue(st[2], 0), "Slip", "public_key")
+                                   for blk in cb.blocks for st in blk["s"])
+            if keycmp:
+                owner_sites.add(bb)
+                d10 = t["dest"][0]
+                nxt = t.get("t")
+                # where does "a foreign input exists" go?
+                for sb, blk in enumerate(tv.blocks):
+                    tt = blk["t"]
+                    if tt["k"] != "switch":
+                        continue
+                    e10 = ch.origin(tt["discr"])
+                    x10, neg10 = gate.unwrap_not(e10)
+                    if x10[0] == "discr" and any(y[0] in ("call", "via") and isinstance(y[-1], int) and y[-1] == bb for y in walk(x10)):
+                        # the adaptor's own result, not one thinned again afterwards (`.find(..).filter(..)`, `.and_then(..)`)
+                        if any(y[0] in ("call", "via") and "Option" in y[1] and y[1].rsplit("::", 1)[-1] in ("filter", "and", "and_then", "xor", "take_if", "map_or", "is_some_and")
+                               for y in walk(x10)):
+                            continue
+                        foreign_edges |= gate.variant_edges(tv, sb, 1) if n10 in ("find", "position", "find_map") else set()
+                bs = gate.bool_switch_edges(tv, ch, lambda e, bb=bb: any(y[0] in ("call", "via") and isinstance(y[-1], int) and y[-1] == bb for y in walk(e)))
+                if n10 == "any":
+                    foreign_edges |= bs["true"]
+                elif n10 == "all":
+                    foreign_edges |= bs["false"]
+    loop_cmp = gate.compare_edges(tv, ch, lambda a, b_: has_field(a, "Slip", "public_key") and has_field(a, "Transaction", "from")
+                                  and has_field(b_, "Slip", "public_key") and has_field(b_, "Transaction", "from"))
+    for sb in loop_cmp["sites"]:
+        if tv.innermost_loop_containing([sb]) is not None:
+            owner_sites.add(sb)
+            foreign_edges |= {e_ for e_ in loop_cmp["ne"] if e_[0] == sb}
+    res.instance(R10)
+    if not owner_sites:
+        res.add(Finding(R10, "C01.input-owner|no-test", "Transaction::validate verifies the signature against from[0].public_key but never compares the other inputs' public_key with it: "
+                        "a transaction signed by its first input's owner can spend anybody's unspent outputs listed after it", tv.loc(sig["sites"][0] if sig["sites"] else 0)))
+    else:
+        f10 = Explorer(tv).explore(0, deleted_edges=exempt, blocked=owner_sites, accept=gate.make_accept(tv, return_true=True))
+        g10 = None
+        for (src, tgt) in sorted(foreign_edges):
+            g = Explorer(tv).explore(tgt, accept=gate.make_accept(tv, return_true=True))
+            if g:
+                g10 = (src, sorted(g.items())[0][1])
+        if f10:
+            kind, path = sorted(f10.items())[0]
+            res.add(Finding(R10, "C01.input-owner|bypass", "Transaction::validate can return true for a non-privileged transaction type without the test that every input belongs to the signer",
+                            tv.loc(path[-1]), {"path": describe_path(tv, path)}))
+        elif g10 or not foreign_edges:
+            res.add(Finding(R10, "C01.input-owner|ungated", "Transaction::validate finds an input that does not carry the signer's key and can still return true"
+                            if g10 else "the outcome of the input-owner test of Transaction::validate is not branched on", tv.loc(sorted(owner_sites)[0])))
+        else:
+            res.sample({"rule": R10, "test": [tv.loc(x) for x in sorted(owner_sites)], "foreign_input_edges": len(foreign_edges), "verdict": "must-pass holds and a foreign input rejects"})
 
     # R6: "nor twice inside the transaction": the pool admits a transaction on Transaction::validate's word alone (its own reservation
     # test looks every key up before it inserts any), so validate must contain a test that can distinguish a repeated input key: a
